@@ -2,6 +2,7 @@ package main
 
 import (
 	"fmt"
+	"github.com/uhppoted/uhppote-core/types"
 	"math/rand"
 	"reflect"
 
@@ -133,7 +134,9 @@ func layoutRecord(rng *rand.Rand, code int, codeTag string, fields []fieldSpec, 
 	}
 	rec := M{"fn": "layout", "layout": M{"code": code, "fields": lf}, "class": class, "codetag": codeTag}
 	var t reflect.Type
-	if p, msg := guard(func() { t = buildType(code, codeTag, fields) }); p {
+	if presetType != nil {
+		t = presetType
+	} else if p, msg := guard(func() { t = buildType(code, codeTag, fields) }); p {
 		rec["skip"] = "StructOf: " + msg
 		return rec
 	}
@@ -274,6 +277,41 @@ func layoutRecord(rng *rand.Rand, code int, codeTag string, fields []fieldSpec, 
 	return rec
 }
 
+// presetType: a layout that is a NAMED Go type written out below (nil: the layout is built with reflect.StructOf)
+var presetType reflect.Type
+
+// two layouts that are different Go types with the SAME name (function-local types called L): whatever the codec remembers
+// about a layout, it must remember it for the type, not for its name
+func localLayoutA() (reflect.Type, []fieldSpec) {
+	type L struct {
+		MsgType types.MsgType `uhppote:"value:0x71"`
+		A       uint32        `uhppote:"offset:8"`
+		B       uint8         `uhppote:"offset:20"`
+		C       uint16        `uhppote:"offset:40"`
+	}
+	return reflect.TypeOf(L{}), []fieldSpec{{name: "A", k: kindNamed("u32"), off: 8}, {name: "B", k: kindNamed("u8"), off: 20}, {name: "C", k: kindNamed("u16"), off: 40}}
+}
+
+func localLayoutB() (reflect.Type, []fieldSpec) {
+	type L struct {
+		MsgType types.MsgType `uhppote:"value:0x71"`
+		A       uint32        `uhppote:"offset:12"`
+		B       uint8         `uhppote:"offset:33"`
+		C       uint16        `uhppote:"offset:62"`
+		D       bool          `uhppote:"offset:50"`
+	}
+	return reflect.TypeOf(L{}), []fieldSpec{{name: "A", k: kindNamed("u32"), off: 12}, {name: "B", k: kindNamed("u8"), off: 33}, {name: "C", k: kindNamed("u16"), off: 62}, {name: "D", k: kindNamed("bool"), off: 50}}
+}
+
+func kindNamed(kind string) kindDef {
+	for _, k := range layoutKinds {
+		if k.kind == kind {
+			return k
+		}
+	}
+	panic("no layout kind " + kind)
+}
+
 func runC18(o *opts) (*summary, error) {
 	w, err := newShardWriter(o.out, "layout", o.shards)
 	if err != nil {
@@ -303,6 +341,16 @@ func runC18(o *opts) (*summary, error) {
 					"single-"+k.kind, fmt.Sprintf("s/%s/%v/%d/%v", k.kind, k.typ, off, emb))
 			}
 		}
+	}
+	// (1b) two named layouts of the same name, alternately (A, B, A, B ...)
+	for i := 0; i < 6; i++ {
+		t, fs := localLayoutA()
+		if i%2 == 1 {
+			t, fs = localLayoutB()
+		}
+		presetType = t
+		w.put(layoutRecord(rng, 0x71, "0x71", fs, "named"), "named", fmt.Sprintf("n/%d", i))
+		presetType = nil
 	}
 	// (2) fixed-value byte tags, decimal / hex / upper case, at every offset
 	for off := 2; off < 64; off++ {
